@@ -3,12 +3,12 @@ PROPS = {}
 
 PROPS["C14"] = dict(
     title="Field-path operations on YAML nodes obey get/set laws",
-    modules=["Kust.Props.C14", "Kust.Props.C14b", "Kust.Props.C14c", "Kust.Props.C14d", "Kust.Lemmas.Path"],
+    modules=["Kust.Props.C14", "Kust.Props.C14b", "Kust.Props.C14c", "Kust.Props.C14d", "Kust.Lemmas.Path", "Kust.Props.C14e"],
     theorems=[
         "Kust.C14.setfield_get", "Kust.C14.setfield_frame", "Kust.C14.setfield_idem",
         "Kust.C14.clear_absent_noop", "Kust.C14.clear_frame", "Kust.Fns.pathGet_nocreate_doc",
         "Kust.C14.create_then_lookup", "Kust.C14.match_nocreate_doc", "Kust.C14.match_denotes", "Kust.C14.denote_resolves",
-        "Kust.C14.match_positions_resolve", "Kust.C14.match_positions_resolve_create", "Kust.C14.split_plain", "Kust.C14.merge_plain", "Kust.C14.filter_denotes", "Kust.C14.splitScan_joinEsc", "Kust.C14.scan_joinEsc", "Kust.C14.split_is_scan", "Kust.C14.split_joinEsc", "Kust.C14.smarter_plain",
+        "Kust.C14.match_positions_resolve", "Kust.C14.match_positions_resolve_create", "Kust.C14.split_plain", "Kust.C14.merge_plain", "Kust.C14.filter_denotes", "Kust.C14.splitScan_joinEsc", "Kust.C14.scan_joinEsc", "Kust.C14.split_is_scan", "Kust.C14.filter_create_get", "Kust.C14.filter_create_mid", "Kust.C14.plainSeg_examples", "Kust.C14.split_joinEsc", "Kust.C14.smarter_plain",
     ],
     components=["fns.lookup", "fns.lookup2", "fns.setfield", "fns.clear", "fns.setelem", "fieldspec.apply", "match.path", "path.split"],
     oracle=False,
